@@ -120,6 +120,7 @@ def check(ctx, rep):
     rep.rule("R16b", "real-file-only handlers reject non-real VFS objects", floor=3)
     rep.rule("R16c", "archive symlinks resolved in the in-memory index only", floor=1)
     rep.rule("R16e", "a link member whose target climbs above the archive root dangles (it is never resolved to a member)", floor=4)
+    rep.rule("R16f", "archive member names are the stored bytes decoded as UTF-8/surrogateescape (cp437 round trip only without the UTF-8 flag)", floor=4)
     rep.rule("R16d", "inner handler = HandlerMultiplexer.getHandler(..., vfs=<archive VFS>) on the same selector", floor=1)
     rep.assume("zipfile.ZipFile methods act on the already opened archive only")
     vfs = ctx.cls("handlers.base.VFS_Real")
@@ -208,6 +209,55 @@ def check(ctx, rep):
                     problems.append(f"link {pathname!r} -> {dest!r} should resolve to member {want!r}, the code looks up {sorted(looked)}")
             rep.add("R16e", f"{S.qualname}: link {pathname!r} -> {dest!r}", not problems, ctx.where(pc, loop), "; ".join(problems),
                     key=f"R16e|{S.qualname}|{'climb' if climbs else 'inside'}|{pathname}")
+    # R16f  member names: the stored bytes, decoded like names on disk (UTF-8 with surrogateescape)
+    for S in subs:
+        pc = prog.resolve_method(S, "populate_cache")
+        if pc is None:
+            continue
+        loops = [n for n in ast.walk(pc.node) if isinstance(n, ast.For) and "infolist()" in norm(n.iter) and isinstance(n.target, ast.Name)]
+        if len(loops) != 1:
+            rep.fail("R16f", f"{S.qualname}.populate_cache", ctx.where(pc), "member enumeration not found", key=f"R16f|{S.qualname}|loop")
+            continue
+        loop = loops[0]
+        var = loop.target.id
+        # (name as zipfile hands it out, UTF-8 flag, bytes stored in the archive)
+        cases = [("plain.txt", 0, b"plain.txt"), ("caf\u00e9.txt", 0x800, "caf\u00e9.txt".encode("utf-8")),
+                 ("r\u00e9sum\u00e9s/andr\u00e9.txt", 0x800, "r\u00e9sum\u00e9s/andr\u00e9.txt".encode("utf-8")),
+                 (b"\xae.txt".decode("cp437"), 0, b"\xae.txt"), ("\u20ac.txt", 0x800, "\u20ac.txt".encode("utf-8")),
+                 (b"caf\x82.txt".decode("cp437"), 0, b"caf\x82.txt")]
+        for shown, flag, raw in cases:
+            want = raw.decode("utf-8", errors="surrogateescape")
+            facts = {f"{var}.filename": Const(shown), f"{var}.flag_bits": Const(flag)}
+            w = Walker(prog, ctx.resolver, assumptions=facts, sticky=set(facts),
+                       inline=lambda fn, t, d: d < 2 and (t.bound_cls is not None or fn.cls is S) and fn.name not in ("_islinkinfo", "_getcacheinode", "_readlink"))
+            w.frame = (pc, S)
+            w._budget = 200000
+            got = set()
+            try:
+                for kind, val, st in w.exec_block(loop.body, State(facts=dict(facts))):
+                    # the name that is split into directory and file part (os.path.split folds on constants, so look
+                    # at the value its argument held)
+                    first, last_by_name = None, {}
+                    for e in st.events:
+                        if e.kind == "assign" and isinstance(e.node, ast.Assign) and isinstance(e.node.value, ast.Call) \
+                                and (dotted(e.node.value.func) or "").endswith("path.split") and e.node.value.args:
+                            a0 = e.node.value.args[0]
+                            v = last_by_name.get(a0.id) if isinstance(a0, ast.Name) else None
+                            first = v.value if v is not None and v.kind == "const" else None
+                            break
+                        if e.kind == "assign" and isinstance(e.target, str) and e.extra is not None:
+                            last_by_name[e.target] = e.extra
+                    got.add(first)
+            except Exception:
+                got = {None}
+            problems = []
+            if None in got or not got:
+                problems.append("the listed name is not determined by code the analysis understands")
+            elif got != {want}:
+                problems.append(f"a member stored as {raw!r} ({'UTF-8 flag set' if flag else 'no UTF-8 flag'}) is listed as {sorted(got)!r}; "
+                                f"the same file extracted on disk is listed as {want!r}")
+            rep.add("R16f", f"{S.qualname}: member name {raw!r} flag={'utf8' if flag else 'none'}", not problems, ctx.where(pc, loop), "; ".join(problems),
+                    key=f"R16f|{S.qualname}|{raw!r}|{flag}")
     # R16d
     zh = ctx.cls("handlers.ZIP.ZIPHandler")
     gh = ctx.func("handlers.HandlerMultiplexer.getHandler")
